@@ -73,7 +73,9 @@ def exBehOf (name : String) (hold : Option Int) : Beh :=
   | "huge" => .exits 0 (String.ofList (List.replicate 1048576 'a'))
   | _ => .startError
 
-/-- the harness's watchdog gives up at timeout + 3 s; "within" means within timeout + 500 ms -/
+/-- the harness's watchdog gives up at timeout + 3 s ("blocked": not produced by the model since
+    `cmd.WaitDelay` is set, kept so that a regression is reported as such); "within" means within
+    timeout + 500 ms -/
 def exWatchdogMs : Nat := 3000
 def exMarginMs : Nat := 500
 
